@@ -10,6 +10,7 @@ CHECKS = {
  "C08": ("proof", "finite vocabulary and key-space tables read from the executed class statements and compared completely with the pinned registry; the three lookups proved for a symbolic key over every closed key space", "the pinned registry (contracts/registry.py) is the oracle", "DESIGN.md 3 C08"),
  "C09": ("other", "P: three actions on unsigned/singly-signed input, key-type x algorithm table, refusal before signing, dependency loading; B: recursive configuration trees to depth 3 with real keys", "RecursiveSigner.__init__/recursive_sign (recursion over a JSON tree) are covered by the bounded stand-in only", "DESIGN.md 3 C09"),
  "C15": ("other", "P: curve-instance precondition, requested key kind, both files from the same key, fixed-width X||Y for all coordinates; B: 40 format combinations and the C-array formatting", "which combinations the library refuses and the text formatting loops are decided by running them (bounded)", "DESIGN.md 3 C15"),
+ "C05": ("proof", "contracts on the three from_obj overrides (four digest forms, size forms, payload forms) over the ghost file system, dependency digest read off the symbolically created nested envelope; bounded create on real files beside it", "hashes/getsize/open are assumed contracts; dependency given by PATH is re-parsed (C03) and covered by the bounded stand-in; one known finding (hex-like file name)", "DESIGN.md 3 C05"),
  "C06": ("proof", "contracts on the real encryption chain (SuitKMS.encrypt .. cmd_encrypt.encrypt_and_generate/generate_info) discharged for all plaintexts, key ids and digests; bounded CLI round trip with independent decryption beside it", "AES-GCM, os.urandom, hashes, cbor2.dumps are assumed contracts (validated differentially); plug-in loading (importlib) assumed to yield the shipped scripts", "DESIGN.md 3 C06"),
  "C10": ("proof", "contracts on the real CachePartition functions discharged for all erase-block sizes, lengths and contents; bounded stand-in through main() beside it", "relative to the assumed contract of cbor2.dumps and lemmas L-float, L-div; merge/from_payloads loops covered by the bounded stand-in", "DESIGN.md 3 C10"),
  "C12": ("proof", "record layout and merged-area data flow proved for all names, policies, addresses, sizes and 0..8 input records", "IntelHex (partial-map operations and HEX file encoding), uuid5 and SHA-256 are assumed contracts", "DESIGN.md 3 C12"),
